@@ -29,7 +29,7 @@ PARSE_ENTRIES = ('parse_dict', 'parse_text', 'parse_stream', 'construct', 'new_v
                  'late_registered')
 JUNK = {
     'null': [None],
-    'number': [0, -1, 1.5, 10 ** 30, 7],
+    'number': [0, -1, 1.5, 10 ** 30, 7, 10 ** 400, -(10 ** 310), 1e308, 5e-324],
     'string': ['', 'junk', '[]', '2017-01-01T00:00:00Z', 'identity--00000000-0000-4000-8000-000000000000'],
     'bool': [True, False],
     'list': [[], [1], [[]], [{}], ['a', None], [{'type': 'file'}]],
@@ -91,7 +91,7 @@ INJECT_KEYS = ['a_matrix', 'x_matrix', 'custom_properties', 'extensions', 'granu
                'spec_version', 'extension_type', 'x_new', 'hashes', 'modified', 'revoked', 'external_references', 'id', 'type',
                'created_by_ref', 'labels', 'lang', 'selectors', 'marking_ref', 'tlp', 'statement', 'object_refs', 'pattern_type',
                'ntfs-ext', 'archive-ext', 'windows-pebinary-ext', 'socket-ext', 'extension-definition--00000000-0000-4000-8000-000000000000']
-INJECT_VALUES = [[[1, [2]]], {'a': [[1], [2, [3]]]}, None, 0, '', 'junk', [], {}, False, True, {'extension_type': 'toplevel-property-extension'},
+INJECT_VALUES = [10 ** 400, [[1, [2]]], {'a': [[1], [2, [3]]]}, None, 0, '', 'junk', [], {}, False, True, {'extension_type': 'toplevel-property-extension'},
                  {'extension_type': 'property-extension'}, {'extension_type': 'new-sdo'}, 'tlp', 'statement', {'tlp': 'white'},
                  {'statement': 's'}, [{}], '2.1', '2.0', 2.1, ['type'], {'ntfs-ext': {'extension_type': 'toplevel-property-extension'}}]
 
@@ -238,6 +238,15 @@ def base_object(op):
             d['extensions'] = dict(exts)
             d['rank'] = 1
             d['score'] = 2
+        if ver == '2.1' and n % 6 == 4:
+            # one UNREGISTERED toplevel-property extension next to a registered one, in either member order
+            a, u = 'extension-definition--' + C.mkuuid(1, 'sim-toplevel'), 'extension-definition--' + C.mkuuid(9, 'c17-unreg-toplevel')
+            exts = [(u, {'extension_type': 'toplevel-property-extension'}), (a, {'extension_type': 'toplevel-property-extension'})]
+            if n % 4 < 2:
+                exts.reverse()
+            d['extensions'] = dict(exts)
+            d['rank'] = 3
+            d['unreg_top'] = 'v'
         if ver == '2.1' and n % 3 == 0:
             # content the library keeps as-is: an unregistered property extension
             d['extensions'] = {'extension-definition--' + C.mkuuid(5, 'c17ext'): {'extension_type': 'property-extension', 'rank': 5,
@@ -255,7 +264,7 @@ class C17(Profile):
     probes = ['corruption_at_depth>=3', 'corruption_in_extension', 'corruption_in_embedded_object', 'stored_file_corrupted',
               'saved_bundle_corrupted', 'stream_input', 'call_raised_library_error', 'call_returned', 'atomicity_checked_store',
               'atomicity_checked_registry', 'list_add_prefix_checked', 'multi_site_corruption', 'observed_data_member_corrupted', 'two_toplevel_extensions',
-              'deep_nesting_injected', 'type_registered_after_first_parse', 'failing_type_registration']
+              'deep_nesting_injected', 'type_registered_after_first_parse', 'failing_type_registration', 'member_order_varied']
     rule = ('plans: 30-80 calls; each takes a valid object (every SDO/SRO type of both versions, 2.1 SCOs, SCOs with nested extensions, 2.0 '
             'observed-data with members, marking definitions, language-content), applies 1-3 wrong-kind replacements at plan-chosen sites of any '
             'depth (incl. values nested 120-800 levels), and delivers it through one of 16 entry points (parse of dict/text/stream, constructor, new_version, Bundle, '
@@ -374,6 +383,31 @@ class C17(Profile):
             sig += '/input-nested-%d-levels' % self.deep_of(desc)
         world.report(Violation('error-family', sig, dict(entry=entry, type=op['name'], ver=op['ver'], sites=desc, exc=safe_repr(out.exc))))
 
+    def member_order(self, op, bad, desc, out, again):
+        """The order of the members of a JSON object carries no meaning: the same damaged content with every object's members
+        in another order must meet the same fate (returned or refused) - validation that depends on which member comes
+        first has let something through unvalidated in one of the two orders."""
+        if self.deep_of(desc):
+            return
+        import random
+        rng = random.Random(op['n'] * 31 + len(desc))
+
+        def shuffled(v):
+            if isinstance(v, dict):
+                ks = list(v)
+                rng.shuffle(ks)
+                return {k: shuffled(v[k]) for k in ks}
+            if isinstance(v, list):
+                return [shuffled(x) for x in v]
+            return v
+        other = shuffled(bad)
+        out2 = again(other)
+        self.world.probe('member_order_varied')
+        if out.ok != out2.ok:
+            raise Violation('validated-object', 'C17.outcome-depends-on-member-order/%s' % ('first-order-accepted' if out.ok else 'shuffled-order-accepted'),
+                            dict(type=op['name'], ver=op['ver'], sites=desc, first=out.tag, shuffled=out2.tag,
+                                 order=[list(other.get('extensions', {}))] if isinstance(other.get('extensions'), dict) else None))
+
     def deep_of(self, desc):
         return max([d.get('levels', 0) for d in desc if d['kind'] == 'deep'] or [0])
 
@@ -413,8 +447,10 @@ class C17(Profile):
                 return
         if entry == 'parse_dict':
             out = call(s.parse, cp(bad), allow_custom=ac)
+            self.member_order(op, bad, desc, out, lambda x: call(s.parse, x, allow_custom=ac))
         elif entry == 'parse_text':
             out = call(s.parse, json.dumps(bad), allow_custom=ac)
+            self.member_order(op, bad, desc, out, lambda x: call(s.parse, json.dumps(x), allow_custom=ac))
         elif entry == 'parse_stream':
             world.probe('stream_input')
             out = call(s.parse, io.StringIO(json.dumps(bad)), allow_custom=ac)
